@@ -3,6 +3,8 @@
 import numpy as np
 from hypothesis import strategies as st
 
+from ..core import sampled_from  # noqa: E402
+
 from .. import build, datagen, meshgen, refmodel
 from ..core import Failure
 
@@ -50,7 +52,7 @@ APPLY_UFUNC_FAMILY = {"np.sin", "np.tanh", "np.add", "np.maximum", "np.abs", "wh
 @st.composite
 def _case(draw, tier):
     big = tier != "quick"
-    fam = draw(st.sampled_from(["hull", "hull", "solid", "latlon"]))
+    fam = draw(sampled_from(["hull", "hull", "solid", "latlon"]))
     if fam == "hull":
         mesh = draw(meshgen.hull_mesh(6, 20 if big else 12, partial=False))
     elif fam == "solid":
@@ -58,15 +60,15 @@ def _case(draw, tier):
     else:
         mesh = draw(meshgen.latlon_mesh_st())
     mesh.pop("centers", None)
-    centred = draw(st.sampled_from(["face", "face", "node", "edge"]))
+    centred = draw(sampled_from(["face", "face", "node", "edge"]))
     nops = draw(st.integers(1, 6))
     pool = XR_OPS * 2 + UX_OPS * 3
-    ops = [{"op": draw(st.sampled_from(pool)), "a": draw(st.integers(0, 7)), "s": draw(st.sampled_from([-2.5, -1.0, 0.5, 1.0, 2.0, 3.0]))} for _ in range(nops)]
+    ops = [{"op": draw(sampled_from(pool)), "a": draw(st.integers(0, 7)), "s": draw(sampled_from([-2.5, -1.0, 0.5, 1.0, 2.0, 3.0]))} for _ in range(nops)]
     return {
         "mesh": mesh,
         "centred": centred,
         "lead": draw(st.lists(st.integers(2, 3), min_size=1, max_size=2)),
-        "dtype": draw(st.sampled_from(["float64", "float64", "float32", "int64"])),
+        "dtype": draw(sampled_from(["float64", "float64", "float32", "int64"])),
         "seed": draw(st.integers(0, 2**31 - 1)),
         "ops": ops,
     }
